@@ -4,7 +4,7 @@ CONSTANTS
   PB = 52
   OB = 12
   IB = 9
-  R <- RNone
+  RIdx <- RNone
   I4 = {0}
   I3 = {0}
   I2 = {0, 1}
